@@ -65,6 +65,12 @@ var mixedOrientationStrings = []string{"abæ¼¢å­—cdæ—¥æœ¬", "æ¼¢abå­—cdæœ¬", "aæ¼
 func rangeStrings() []string {
 	out := stringsUpTo([]string{"a", "b", "c"}, 3)[1:]
 	out = append(out, "0123456", "a0123456b", "01234567x89", "x0123456", "abc0123456", "AV0123456Ã©", "....... ", "iiiiiii")
+	// more than 92 distinct glyphs: the low byte of a code becomes 0x5C (backslash), 0x28 and 0x29 (parentheses) and 0x0D
+	all := ""
+	for c := rune(0x20); c < 0x7f; c++ {
+		all += string(c)
+	}
+	out = append(out, all, all+"Ã©Ã¨ÃªÃ«Ã Ã¡Ã¢Ã¤Ã¹ÃºÃ»Ã¼")
 	// every pair of consecutive code points of printable ASCII and of the Latin-1 letters: their
 	// glyph ids are consecutive in some fonts and far apart in others (ToUnicode bfrange merging
 	// must follow the codes, not only the characters)
